@@ -6,6 +6,8 @@ import EaselModel.Msafile.PhylipWritable
 import EaselModel.Msafile.PhylipIdem
 import EaselModel.Msafile.PhylipLemmas
 import EaselModel.Msafile.WriteLemmas
+import EaselModel.Msafile.StoWritable
+import EaselModel.Msafile.StockholmLemmas
 /-! # C03 — writing an alignment and reading it back preserves it: property theorems
 
 Full statement (properties.jsonl): for every well-formed alignment, writing it in any of the ten formats and reading the
@@ -13,7 +15,7 @@ output back (declared or autodetected format, text or digital) yields an alignme
 the format can represent; output is deterministic, accepted by the reader, and re-writing the re-read alignment
 reproduces the same bytes.
 
-PARTIAL at this revision: the round-trip theorems cover aligned FASTA and PHYLIP (sequential and interleaved; declared format), text mode and digital mode with the
+PARTIAL at this revision: the round-trip theorems cover aligned FASTA, PHYLIP (sequential and interleaved) and Pfam / multi-block Stockholm for alignments that carry names and rows only (declared format), text mode and digital mode with the
 generated amino/DNA/RNA alphabets, for alignments of ANY size. `AfaTextWritable` / `AfaDigitalWritable` say what AFA
 can carry: ≥ 1 sequence, ≥ 1 column, names without blank/tab/NUL, descriptions that do not start with a blank and hold
 no NUL, no LF inside / CR at the end of a name line, no separate accessions (AFA prints them into the description),
@@ -231,5 +233,125 @@ example : phylipRead false (phylipCfg (some abcDna)) (splitLines (phylipWrite fa
 example : (phylipProject (phylipCfg (some abcDna)) exPhyDna).ax = exPhyDna.ax := by decide +kernel
 
 /-! ## ===== PHYLIP — end ===== -/
+
+/-! ## ===== STOCKHOLM/PFAM — begin =====
+
+Round trip through `stockholm_write` (`stockholmWrite pfam`, `pfam = true`: one block; `false`: 200-column blocks
+separated by blank lines) and `esl_msafile_stockholm_Read`, for alignments of ANY size that carry names and aligned rows
+ONLY (`StoPlain`: no weights, no cut-offs, no #=GF/#=GS/#=GC/#=GR annotation, no comments).
+`StoTextWritable` / `StoDigitalWritable`: ≥ 1 sequence, ≥ 1 column, names pairwise distinct, non-empty, without
+blank/tab/NUL/LF, not beginning with `#` nor `//`; text residues graphic; digital rows well formed.
+`stoProject` = the alignment itself with the rows in the reader's mode and default weights.
+
+PARTIAL with respect to the full statement ("Stockholm and Pfam preserve all of it"): annotation (Stage 4: #=GF ID/AC/DE/AU,
+comments, #=GS, #=GC, #=GR, unparsed tags) is not covered by a theorem here; weights and cut-offs cannot be stated because the
+reader model does not carry their numeric value.  The executable check covers them. -/
+
+theorem stockholm_write_deterministic (pfam : Bool) (abc : Option Abc) (m₁ m₂ : Msa) (h : m₁ = m₂) :
+    stockholmWrite pfam abc m₁ = stockholmWrite pfam abc m₂ := by rw [h]
+
+theorem stoDigSymOk_of (a : Abc) (ha : a = abcAmino ∨ a = abcDna ∨ a = abcRna) : stoDigSymOk a = true := by
+  rcases ha with h | h | h <;> subst h
+  · exact stoDigSymOk_amino
+  · exact stoDigSymOk_dna
+  · exact stoDigSymOk_rna
+
+/-- **Pfam round trip, text mode, names and rows** (Stage 1) -/
+theorem pfam_roundtrip_plain_text (m : Msa) (h : StoTextWritable m) :
+    stockholmRead (stockholmCfg none) (splitLines (stockholmWrite true none m)) = (.ok (stoProject (stockholmCfg none) m), []) :=
+  stoRead_write true none (stockholmCfg none) id _ m (stoTextWritable_writable m h)
+
+/-- **Pfam round trip, digital mode (amino, DNA, RNA), names and rows** (Stage 2) -/
+theorem pfam_roundtrip_plain_digital (a : Abc) (ha : a = abcAmino ∨ a = abcDna ∨ a = abcRna) (m : Msa) (h : StoDigitalWritable a m) :
+    stockholmRead (stockholmCfg (some a)) (splitLines (stockholmWrite true (some a) m))
+      = (.ok (stoProject (stockholmCfg (some a)) m), []) :=
+  stoRead_write true (some a) (stockholmCfg (some a)) (stoEnc a) _ m (stoDigitalWritable_writable a (stoDigSymOk_of a ha) m h)
+
+/-- **Stockholm round trip (200-column blocks), text mode, names and rows** (Stage 3) -/
+theorem stockholm_roundtrip_plain_text (m : Msa) (h : StoTextWritable m) :
+    stockholmRead (stockholmCfg none) (splitLines (stockholmWrite false none m)) = (.ok (stoProject (stockholmCfg none) m), []) :=
+  stoRead_write false none (stockholmCfg none) id _ m (stoTextWritable_writable m h)
+
+/-- **Stockholm round trip (200-column blocks), digital mode, names and rows** (Stage 3) -/
+theorem stockholm_roundtrip_plain_digital (a : Abc) (ha : a = abcAmino ∨ a = abcDna ∨ a = abcRna) (m : Msa) (h : StoDigitalWritable a m) :
+    stockholmRead (stockholmCfg (some a)) (splitLines (stockholmWrite false (some a) m))
+      = (.ok (stoProject (stockholmCfg (some a)) m), []) :=
+  stoRead_write false (some a) (stockholmCfg (some a)) (stoEnc a) _ m (stoDigitalWritable_writable a (stoDigSymOk_of a ha) m h)
+
+/-- the general form all four are instances of -/
+theorem stockholm_roundtrip_plain (pfam : Bool) (abc : Option Abc) (cfg : Cfg) (enc : UInt8 → UInt8) (txt : Nat → Bytes) (m : Msa)
+    (h : StoWritable abc cfg enc txt m) :
+    stockholmRead cfg (splitLines (stockholmWrite pfam abc m)) = (.ok (stoProject cfg m), []) :=
+  stoRead_write pfam abc cfg enc txt m h
+
+/-- library-written Stockholm/Pfam output is accepted, holds exactly one alignment (nothing follows `//`: the next read is
+    eslEOF), and the alignment read back is well formed -/
+theorem stockholm_write_accepted (pfam : Bool) (m : Msa) (h : StoTextWritable m) :
+    (∃ m', (stockholmRead (stockholmCfg none) (splitLines (stockholmWrite pfam none m))).1 = .ok m' ∧ m'.wellFormed = true) ∧
+    (stockholmRead (stockholmCfg none) (stockholmRead (stockholmCfg none) (splitLines (stockholmWrite pfam none m))).2).1 = .eof := by
+  have hr := stockholm_roundtrip_plain pfam none _ id _ m (stoTextWritable_writable m h)
+  have hv : (stockholmCfg none).valid := ⟨by decide +kernel, by decide +kernel⟩
+  have hni : (stockholmCfg none).inmap.noIgnore = true := by decide +kernel
+  generalize splitLines (stockholmWrite pfam none m) = L at hr ⊢
+  have hg : Good (stockholmRead (stockholmCfg none) L).1 := stockholmRead_good _ hv hni L
+  rw [hr] at hg
+  refine ⟨⟨_, by rw [hr], hg⟩, ?_⟩
+  rw [hr]
+  simp [stockholmRead, runLines, stoFinish]
+
+/-- what Stockholm/Pfam preserve of such an alignment: names, width and the aligned rows, exactly -/
+theorem stockholm_preserves_names_rows (m : Msa) (h : StoTextWritable m) :
+    (stoProject (stockholmCfg none) m).names = m.names ∧ (stoProject (stockholmCfg none) m).alen = m.alen ∧
+    ∀ i, i < m.nseq → (stoProject (stockholmCfg none) m).aseq.getD i [] = m.aseq.getD i [] := by
+  refine ⟨rfl, rfl, ?_⟩
+  intro i hi
+  simp [stoProject, stockholmCfg, Cfg.digital, Msa.stored, h.dig, List.getD_eq_getElem?_getD, hi]
+
+/-! ### non-vacuity -/
+
+/-- names "a", "bb"; rows "AC-GT", "ACGTT" -/
+def exSto : Msa :=
+  { alen := 5, names := [[97], [98, 98]], aseq := [[65, 67, 45, 71, 84], [65, 67, 71, 84, 84]], wgt := [.dflt, .dflt] }
+
+theorem exSto_plain : StoPlain exSto := by constructor <;> rfl
+
+theorem exSto_writable : StoTextWritable exSto :=
+  { dig := rfl, plain := exSto_plain, n1 := by decide, alen1 := by decide, nodup := by decide
+    name_ok := by unfold stoNameOk nameOk; decide +kernel
+    row_ok := by decide +kernel }
+
+example : stockholmRead (stockholmCfg none) (splitLines (stockholmWrite true none exSto))
+    = (.ok (stoProject (stockholmCfg none) exSto), []) := by decide +kernel
+example : stoProject (stockholmCfg none) exSto = exSto := by decide +kernel
+
+/-- the same digitised with the DNA alphabet (A=0 C=1 G=2 T=3 gap=4) -/
+def exStoDna : Msa :=
+  { digital := true, kp := 18, alen := 5, names := exSto.names,
+    ax := [[255, 0, 1, 4, 2, 3, 255], [255, 0, 1, 2, 3, 3, 255]], wgt := [.dflt, .dflt] }
+
+theorem exStoDna_writable : StoDigitalWritable abcDna exStoDna :=
+  { dig := rfl, plain := by constructor <;> rfl, n1 := by decide, alen1 := by decide, nodup := by decide
+    name_ok := by unfold stoNameOk nameOk; decide +kernel
+    row_ok := by decide +kernel }
+
+example : stockholmRead (stockholmCfg (some abcDna)) (splitLines (stockholmWrite true (some abcDna) exStoDna))
+    = (.ok (stoProject (stockholmCfg (some abcDna)) exStoDna), []) := by decide +kernel
+example : (stoProject (stockholmCfg (some abcDna)) exStoDna).ax = exStoDna.ax := by decide +kernel
+
+/-- 2 sequences, 201 columns: two Stockholm blocks (200 + 1) -/
+def exSto201 : Msa :=
+  { alen := 201, names := [[115, 49], [115, 50]],
+    aseq := [List.replicate 100 65 ++ [45] ++ List.replicate 100 67, List.replicate 200 71 ++ [84]], wgt := [.dflt, .dflt] }
+
+theorem exSto201_writable : StoTextWritable exSto201 :=
+  { dig := rfl, plain := by constructor <;> rfl, n1 := by decide, alen1 := by decide, nodup := by decide
+    name_ok := by unfold stoNameOk nameOk; decide +kernel
+    row_ok := by decide +kernel }
+
+example : (blockStarts exSto201.alen (stoCpl false exSto201)).length = 2 := by decide +kernel
+example : stockholmRead (stockholmCfg none) (splitLines (stockholmWrite false none exSto201))
+    = (.ok (stoProject (stockholmCfg none) exSto201), []) := by decide +kernel
+
+/-! ## ===== STOCKHOLM/PFAM — end ===== -/
 
 end EaselModel.Props.C03
